@@ -136,7 +136,7 @@ func (t *QuicTransport) exchangeStream(ctx context.Context, payload []byte, stre
 	}
 	rc := make(chan res, 1)
 	go func() {
-		_, err = stream.Write(payload)
+		_, err := stream.Write(payload) // must not touch the named result of exchangeStream
 		if err != nil {
 			stream.CancelRead(_DOQ_REQUEST_CANCELLED)
 			stream.CancelWrite(_DOQ_REQUEST_CANCELLED)
